@@ -42,6 +42,7 @@ class Ctx:
         self.violations = 0
         self.assumptions = []
         self.checker_cmds = []
+        self.unreproduced = []   # rejected recordings whose re-execution was accepted: never a verdict
         self.prepare = None      # how to build scratch copy + harness (set by shim-based properties)
 
     # ---------------------------------------------------------------- scratch
@@ -474,8 +475,11 @@ def check_recordings(ctx, driver, module, files, open_kf, variant_of=lambda f: "
             if reproducer:
                 rep = reproducer(ctx, f, nodes, target, module, cfg)
                 if rep is None:
-                    raise Infra("mismatch at line %d of %s did not reproduce on re-execution (recorded %s)"
-                                % (target, f, json.dumps(rec)[:800]))
+                    ctx.unreproduced.append("mismatch at line %d of %s did not reproduce on re-execution (recorded %s)"
+                                            % (target, os.path.basename(f), json.dumps(rec)[:500]))
+                    ctx.states += r["distinct"]
+                    ctx.transitions += r["generated"]
+                    continue
                 body, observed = rep
                 rp = write_replay_body(ctx, body)
                 log("unexplained execution at line %d of %s: %s observed=%s" % (
@@ -487,7 +491,7 @@ def check_recordings(ctx, driver, module, files, open_kf, variant_of=lambda f: "
                 ctx.transitions += r["generated"]
                 continue
             confirmed = None
-            for attempt in range(3):
+            for attempt in range(12):
                 out = os.path.join(ctx.scratch, "t", "confirm-%d-%d.lin.ndjson" % (target, attempt))
                 ctx.replay_path(driver, variant, path, out=out)
                 rr = ctx.tlc(module, cfg=cfg, env={"TRACE": out}, workers=1, xmx="1g")
@@ -507,8 +511,9 @@ def check_recordings(ctx, driver, module, files, open_kf, variant_of=lambda f: "
                 violation(ctx, rp)
                 nviol += 1
             else:
-                raise Infra("mismatch at line %d of %s did not reproduce on re-execution (recorded %s)"
-                            % (target, f, json.dumps(rec)[:800]))
+                # never a verdict (DESIGN 6.1); exit 2 unless another execution is confirmed in this run
+                ctx.unreproduced.append("mismatch at line %d of %s did not reproduce on re-execution (recorded %s)"
+                                        % (target, os.path.basename(f), json.dumps(rec)[:500]))
             ctx.states += r["distinct"]
             ctx.transitions += r["generated"]
             continue
